@@ -1,0 +1,8 @@
+//go:build verif
+
+// Verification hook (add-only, compiled only with -tags verif): exports the unexported document
+// splitter so that the /verif harness can compare it with its model. Nothing here changes behaviour.
+package kio
+
+// VerifC13SplitDocuments is splitDocuments.
+func VerifC13SplitDocuments(s string) ([]string, error) { return splitDocuments(s) }
